@@ -476,12 +476,14 @@ def check_C15(F, tier, t0):
 def check_C16(F, tier, t0):
     R = Report('C16')
     guarded(R, 'L', engine_l.rule_max_clique, F, R)
-    R.floor('L:complement-push-sites', 2); R.floor('L:truth-table-rows', 16); R.floor('L:vertex-list-uses', 3)
+    guarded(R, 'L templates', engine_l.rule_max_clique_templates, F, R)
+    R.floor('L:complement-push-sites', 2); R.floor('L:truth-table-rows', 16); R.floor('L:vertex-list-uses', 3); R.floor('L:template-skeleton-pieces', 10)
     return finish(R, 'other', tier, t0,
         'Clauses: the complement-edge guard as a truth table over {v1==v2, -u, E(v1,v2), E(v2,v1), already-emitted(v2,v1)} equals the specification (directed: constrained '
         'unless the edge exists; undirected: unless either direction exists, once per unordered pair); v1,v2 both range over the vertex set; both copies of the constraints are '
-        'generated from the same list; --all replaces the maximality conjunct by true; binder list and both counting lists come from the vertex set. '
-        'Not decided: the fixed text of the emitted templates, CSV parsing.',
+        'generated from the same list; --all replaces the maximality conjunct by true; binder list and both counting lists come from the vertex set; the emitted pieces of text, '
+        'tokenised with the language\'s own token table (whitespace, comments and operator spelling are immaterial), form the reference skeleton `-(A & B) & ... (true | forall L # (-(v_A & v_B) & ...) => [V] >= [v_V])`. '
+        'Not decided: CSV parsing; that vertex names are identifiers (property precondition).',
         TRUSTED, [], './check C16')
 
 def check_C18(F, tier, t0):
